@@ -87,6 +87,87 @@ def strip_comments(body):
     return "".join(out)
 
 
+MANIPS = {"std::dec": "M_DEC", "std::hex": "M_HEX", "std::uppercase": "M_UPPER", "std::nouppercase": "M_NOUPPER",
+          "std::left": "M_LEFT", "std::right": "M_RIGHT", "std::noshowbase": "M_NOSHOWBASE",
+          "dec": "M_DEC", "hex": "M_HEX", "uppercase": "M_UPPER", "left": "M_LEFT", "right": "M_RIGHT", "noshowbase": "M_NOSHOWBASE"}
+
+
+def _split_top(text, sep="<<"):
+    items, depth, i, cur, n = [], 0, 0, [], len(text)
+    while i < n:
+        c = text[i]
+        if c in "\"'":
+            q, j = c, i + 1
+            while j < n and text[j] != q:
+                if text[j] == "\\":
+                    j += 1
+                j += 1
+            cur.append(text[i:j + 1]); i = j + 1; continue
+        if c in "([{":
+            depth += 1
+        elif c in ")]}":
+            depth -= 1
+        if depth == 0 and text.startswith(sep, i):
+            items.append("".join(cur).strip()); cur = []; i += len(sep); continue
+        cur.append(c); i += 1
+    items.append("".join(cur).strip())
+    return items
+
+
+def _out_item(stream, it):
+    m = re.fullmatch(r"(?:std::)?setw\((.*)\)", it, re.S)
+    if m:
+        return "OUT_SETW(%s, %s);" % (stream, m.group(1))
+    m = re.fullmatch(r"(?:std::)?setfill\((.*)\)", it, re.S)
+    if m:
+        return "OUT_SETFILL(%s, %s);" % (stream, m.group(1))
+    m = re.fullmatch(r"(?:std::)?setbase\((.*)\)", it, re.S)
+    if m:
+        return "OUT_SETBASE(%s, %s);" % (stream, m.group(1))
+    if it in MANIPS:
+        return "OUT_MANIP(%s, %s);" % (stream, MANIPS[it])
+    if re.fullmatch(r'"(?:[^"\\]|\\.)*"', it, re.S):
+        return "OUT_STR(%s, %s);" % (stream, it)
+    if re.fullmatch(r"'(?:[^'\\]|\\.)+'", it):
+        return "OUT_CHR(%s, %s);" % (stream, it)
+    m = re.fullmatch(r"unsigned\((.*)\)", it, re.S)
+    if m:
+        return "OUT_NUM(%s, (unsigned)(%s));" % (stream, m.group(1))
+    return "OUT_VAL(%s, %s);" % (stream, it)
+
+
+def rewrite_ostream_chains(body, stream):
+    out, i, n, k = [], 0, len(body), 0
+    rx = re.compile(r"(?<![\w.>])" + re.escape(stream) + r"\s*<<")
+    while True:
+        m = rx.search(body, i)
+        if not m:
+            out.append(body[i:]); break
+        # statement ends at the first ';' at depth 0
+        j, depth = m.end(), 0
+        while j < n:
+            c = body[j]
+            if c in "\"'":
+                q = c; j += 1
+                while j < n and body[j] != q:
+                    if body[j] == "\\":
+                        j += 1
+                    j += 1
+            elif c in "([{":
+                depth += 1
+            elif c in ")]}":
+                depth -= 1
+            elif c == ";" and depth == 0:
+                break
+            j += 1
+        items = _split_top(body[m.end():j])
+        out.append(body[i:m.start()])
+        out.append("{ " + " ".join(_out_item(stream, it) for it in items) + " }")
+        i = j + 1
+        k += 1
+    return "".join(out), k
+
+
 def extract(spec, repo, outdir):
     path = os.path.join(repo, spec["file"])
     try:
@@ -119,6 +200,14 @@ def extract(spec, repo, outdir):
     fired = []
     for rule in spec.get("rules", []):
         rx, repl, cnt = rule
+        if rx == "OSTREAM_CHAIN":
+            # statement-level rewrite of `<stream> << a << b << ... ;` into one OUT_* call per inserted item
+            body, k = rewrite_ostream_chains(body, repl)
+            ok = (k >= int(cnt[2:])) if isinstance(cnt, str) else (k == cnt)
+            fired.append({"rule": "ostream chain on '%s' -> OUT_* events" % repl, "fired": k, "expected": cnt})
+            if not ok:
+                raise ExtractionBreak("%s: %d ostream statements on '%s', expected %s" % (spec["name"], k, repl, cnt))
+            continue
         body, k = re.subn(rx, repl, body, flags=re.S)
         if isinstance(cnt, int):
             ok = (k == cnt)
